@@ -29,7 +29,9 @@ def snap(c, with_trials=True):
     s = {
         'state': c.state,
         'heights': [str(h) for h in c.heights],
-        'cards': {j.bib: list(hjimpl.strip(j.attempts_by_height)) for j in js},
+        # raw cards: a trailing empty cell is a difference the log replay must reproduce too (only the card
+        # round trip, which drops pass marks, strips them - see no_pass)
+        'cards': {j.bib: list(j.attempts_by_height) for j in js},
         'bests': {j.bib: str(j.highest_cleared) for j in js},
         'places': {j.bib: j.place for j in js},
     }
@@ -243,19 +245,26 @@ def play_and_check(ctx, draw):
     marks = []
 
     def on_call(p, call, vs, status):
-        if status == 'ok':
-            marks.append(len(p.hist))
-    p = hjplay.random_play(draw, on_call, noise=8, nmin=1)
+        if status in ('ok', 'refused'):
+            marks.append(len(p.all_calls))
+    p = hjplay.random_play(draw, on_call, noise=12, nmin=1, lenient=True)
     ctx.label('play')
     if not marks:
         return
-    # full histories include the refused (noise) calls?  No: p.hist holds accepted calls only; refused ones never
-    # reach the log, so the accepted history is the competition.
-    points = {len(p.hist)}
+    # the history is everything that was CALLED, refused calls included: a refused call must leave no trace, so the
+    # live object (which saw them) must still equal its own log replay and card re-import (which do not)
+    n = len(p.m.order)
+    full = [('add', b) for b in p.m.order] + p.all_calls
+    # only prefixes ending after an accepted or a refused call: a call that left specified territory (a pass in a
+    # jump-off, ...) cuts the play and is not part of any examined history
+    ends = [n + k for k in marks]
+    points = {ends[-1]}
     for _ in range(2):
-        points.add(1 + draw(len(p.hist)))
+        points.add(ends[draw(len(ends))])
     for k in sorted(points):
-        do_prefix(ctx, p.m.order, p.hist[:k], draw)
+        do_prefix(ctx, p.m.order, full[:k], draw)
+    if any(hjsearch.enc(c) for c in p.all_calls if c not in p.hist):
+        ctx.label('play-with-refused-calls')
 
 
 def shard_plays(ctx, payload):
